@@ -30,6 +30,7 @@ import Frp.Engines.Pool
 import Frp.Engines.HttpE2e
 import Frp.Engines.HttpGrp
 import Frp.Engines.Xtcp
+import Frp.Engines.Vhs
 import Frp.Engines.Vmgr
 import Frp.Engines.Svc
 import Frp.Engines.Teardown
@@ -73,6 +74,7 @@ def all : List (String × Engine) :=
   , ("httpe2e", httpe2e)
   , ("httpgrp", httpgrp)
   , ("xtcp", xtcp)
+  , ("vhs", vhs)
   , ("vmgr", vmgr)
   , ("svc", svc)
   , ("ctlreg", ctlreg)
